@@ -314,21 +314,37 @@ Fixpoint sinv_loop (fuel : nat) (u v x1 x2 : Z) : Z :=
 Definition sc_inv (a : Z) : Z := sinv_loop 1100 a secp_n 1 0.
 
 (* secp256k1_ecdsa_sig_verify(r, s, Q, m): r, s != 0; R = (m/s) G + (r/s) Q != infinity; x(R) mod n == r
-   (the C code compares without reducing: xr == x(R) or xr + n == x(R) with xr + n < p) *)
+   (the C code compares without reducing: xr == x(R) or xr + n == x(R) with xr + n < p).
+   Written over an arbitrary group so that proofs/ECGroup.v can reason from the group laws; the
+   executable instance follows. *)
+Section EcdsaGen.
+  Variable pt : Type.
+  Variable g_add : pt -> pt -> pt.
+  Variable g_mulG : Z -> pt.
+  Variable g_mul : Z -> pt -> pt.
+  Variable g_x : pt -> option Z.       (* x coordinate; None for the point at infinity *)
+  Variable s_inv : Z -> Z.             (* secp256k1_scalar_inverse_var *)
+  Definition ecdsa_sig_verify_gen (r s : Z) (Q : pt) (m : Z) : bool :=
+    if (r =? 0) || (s =? 0) then false
+    else let sn := s_inv s in
+         let u1 := sc_mul sn m in
+         let u2 := sc_mul sn r in
+         match g_x (g_add (g_mulG u1) (g_mul u2 Q)) with
+         | None => false
+         | Some x => (x =? r) || ((r + secp_n <? secp_p) && (x =? r + secp_n))
+         end.
+  (* secp256k1_ecdsa_verify: m = msg mod n (overflow ignored); !is_high(s) && sig_verify *)
+  Definition ecdsa_verify_gen (rs : Z * Z) (m : Z) (Q : pt) : bool :=
+    let '(r, s) := rs in negb (scalar_is_high s) && ecdsa_sig_verify_gen r s Q m.
+  (* CPubKey::Verify after the (lax) DER parse: normalize, then verify *)
+  Definition node_ecdsa_verify_gen (rs : Z * Z) (m : Z) (Q : pt) : bool :=
+    ecdsa_verify_gen (snd (sig_normalize rs)) m Q.
+End EcdsaGen.
+
+Definition pt_x (P : point) : option Z := match P with Some (x, _) => Some x | None => None end.
 Definition ecdsa_sig_verify (r s : Z) (Q : Z * Z) (m : Z) : bool :=
-  if (r =? 0) || (s =? 0) then false
-  else let sn := sc_inv s in
-       let u1 := sc_mul sn m in
-       let u2 := sc_mul sn r in
-       match pt_add (mul_G u1) (pt_mul u2 (Some Q)) with
-       | None => false
-       | Some (x, _) => (x =? r) || ((r + secp_n <? secp_p) && (x =? r + secp_n))
-       end.
-(* secp256k1_ecdsa_verify: m = msg mod n (overflow ignored); !is_high(s) && sig_verify *)
+  ecdsa_sig_verify_gen point pt_add mul_G pt_mul pt_x sc_inv r s (Some Q) m.
 Definition ecdsa_verify (rs : Z * Z) (msg32 : list N) (Q : Z * Z) : bool :=
-  let '(r, s) := rs in
-  let m := fst (scalar_set_b32 msg32) in
-  negb (scalar_is_high s) && ecdsa_sig_verify r s Q m.
-(* CPubKey::Verify after the (lax) DER parse: normalize, then verify *)
+  ecdsa_verify_gen point pt_add mul_G pt_mul pt_x sc_inv rs (fst (scalar_set_b32 msg32)) (Some Q).
 Definition node_ecdsa_verify (rs : Z * Z) (msg32 : list N) (Q : Z * Z) : bool :=
-  ecdsa_verify (snd (sig_normalize rs)) msg32 Q.
+  node_ecdsa_verify_gen point pt_add mul_G pt_mul pt_x sc_inv rs (fst (scalar_set_b32 msg32)) (Some Q).
